@@ -226,6 +226,26 @@ def float_neighbour_goal(rng, macro):
     return A.rel(relname, T, t, r)
 
 
+def of_nat_trunc_goal(rng):
+    """of_nat around a nat expression whose inner subtraction truncates and feeds another operator, next to an
+    irrational constant (so that the approximate evaluation path is taken)"""
+    T = S.REAL
+    n = lambda v: A.num(S.NAT, v)
+    a, b, c_ = rng.randrange(0, 6), rng.randrange(3, 12), rng.randrange(1, 9)
+    inner = A.binop(rng.choice(['plus', 'times']), S.NAT, A.binop('minus', S.NAT, n(a), n(b)), n(c_))
+    if rng.random() < 0.4:
+        inner = A.binop('minus', S.NAT, n(b + c_), A.binop('minus', S.NAT, n(a), n(b)))
+    on = ('comb', A.c('of_nat', S.fun(S.NAT, T)), inner)
+    irr = rng.choice([('comb', A.c('sqrt', S.fun(T, T)), A.num(T, rng.choice([2, 3, 5]))), A.c('pi', T)])
+    lhs = A.binop(rng.choice(['plus', 'times']), T, on, irr)
+    try:
+        v = A.ev(lhs)
+    except Exception:
+        return None
+    k = int(v.f) + rng.choice([-2, -1, 0, 1, 2])
+    return A.rel(rng.choice(['less', 'less_eq', 'greater', 'greater_eq']), T, lhs, A.num(T, k))
+
+
 def trig_goal(rng):
     T = S.REAL
     pi = A.c('pi', T)
@@ -387,6 +407,8 @@ def make_goal(rng, macro):
             return float_neighbour_goal(rng, macro)
         if r < 0.35:
             return trig_goal(rng)
+        if r < 0.5:
+            return of_nat_trunc_goal(rng)
         return goal_compare(rng, macro, transc=True)
     if macro == 'real_norm':
         return goal_real_norm(rng)
@@ -422,12 +444,30 @@ def goal_type(goal):
     return None
 
 
+def sides_within_float_noise(goal):
+    h, args = S.strip_comb(goal)
+    if h[0] == 'const' and h[1] == 'neg' and args:
+        h, args = S.strip_comb(args[0])
+    if len(args) != 2:
+        return False
+    try:
+        a, b = A.ev(args[0]), A.ev(args[1])
+    except Exception:
+        return False
+    d = abs(a.f - b.f)
+    return d <= 1e-9 * (1 + abs(a.f) + abs(b.f))
+
+
 def classify(macro, goal):
     gT = goal_type(goal)
     if gT is not None and gT != INTENDED[macro] and gT in (S.NAT, S.INT, S.REAL):
         return '%s:goal-at-unintended-type-%s' % (macro, gT[1])
     if has_transc(goal) or has_rpower(goal):
-        return '%s:float-rounding-on-irrational-constant' % macro
+        # "float rounding" only when the two sides really are closer than double precision can separate;
+        # a grossly wrong value is a different mechanism (and is not covered by the known finding)
+        if sides_within_float_noise(goal):
+            return '%s:float-rounding-on-irrational-constant' % macro
+        return '%s:wrong-value-beyond-rounding' % macro
     if S.atoms(goal):
         return '%s:false-identity-with-variables' % macro
     return '%s:wrong-exact-arithmetic' % macro
